@@ -20,10 +20,30 @@ ASSUMPTIONS = [
     'boolean, integer-valued discrete, other discrete/continuous, categorical and indexed parameters)',
 ]
 _SC = None
+_SC_WIRE = None
 
 
-def _config():
-  global _SC
+def _config(wire=False):
+  """wire=True: the config as a client sees it, i.e. read back from its protocol-buffer form."""
+  global _SC, _SC_WIRE
+  if wire:
+    with NoTracing():
+      if _SC_WIRE is None:
+        proto = _config().to_proto()
+        # as another client would write it: ONE conditional spec listing both parent values of `layers`
+        for p in proto.parameters:
+          if p.parameter_id == 'model':
+            specs = [c for c in p.conditional_parameter_specs]
+            layer_specs = [c for c in specs if c.parameter_spec.parameter_id == 'layers']
+            merged = type(layer_specs[0])()
+            merged.CopyFrom(layer_specs[0])
+            del merged.parent_categorical_values.values[:]
+            merged.parent_categorical_values.values.extend(['dnn', 'tree'])
+            others = [c for c in specs if c.parameter_spec.parameter_id != 'layers']
+            del p.conditional_parameter_specs[:]
+            p.conditional_parameter_specs.extend([merged] + others)
+        _SC_WIRE = vz.StudyConfig.from_proto(proto)
+      return _SC_WIRE
   with NoTracing():
     if _SC is None:
       sc = vz.StudyConfig(algorithm='RANDOM_SEARCH')
@@ -37,6 +57,8 @@ def _config():
       r.add_int_param('v', 0, 3, index=0)
       r.add_int_param('v', 0, 3, index=1)
       r.add_int_param('v', 0, 3, index=2)
+      for k in range(12):
+        r.add_int_param('w', 0, 20, index=k)
       m = r.add_categorical_param('model', ['dnn', 'lin', 'tree'])
       m.select_values(['dnn', 'tree']).add_int_param('layers', 1, 3)
       m.select_values(['lin']).add_float_param('l2', 0.0, 1.0)
@@ -88,7 +110,27 @@ def indexed_values(v0: int, v1: int, v2: int, present: int, order: int) -> bool:
   return finish(ok, (v0, v1, v2, present, order))
 
 
-def conditional_values(model: int, with_layers: bool, with_l2: bool, unknown: bool, layers: int, l2: float) -> bool:
+def indexed_many(a: int, b: int, order: int) -> bool:
+  """
+  pre: 0 <= a <= 20 and 0 <= b <= 20 and 0 <= order <= 2
+  post: _
+  """
+  order = conc(order, 0, 2)
+  sc = _config()
+  vals = [k for k in range(12)]
+  vals[2], vals[10] = a, b
+  idx = list(range(12))
+  if order == 1:
+    idx = list(reversed(idx))
+  elif order == 2:
+    idx = idx[1::2] + idx[0::2]
+  params = {'w[%d]' % k: vals[k] for k in idx}
+  got = sc.trial_parameters(pc.TrialConverter.to_proto(vz.Trial(id=4, parameters=params)))
+  reach('indexed_many')
+  return finish(sorted(got.keys()) == ['w'] and got['w'] == vals, (a, b, order))     # index order, not string order
+
+
+def conditional_values(model: int, with_layers: bool, with_l2: bool, unknown: bool, layers: int, l2: float, wire: bool) -> bool:
   """
   pre: 0 <= model <= 2 and 1 <= layers <= 3
   post: _
@@ -96,7 +138,7 @@ def conditional_values(model: int, with_layers: bool, with_l2: bool, unknown: bo
   if not (0.0 <= l2 <= 1.0):
     return True
   model, with_layers, with_l2, unknown = conc(model, 0, 2), cbool(with_layers), cbool(with_l2), cbool(unknown)
-  sc = _config()
+  sc = _config(cbool(wire))
   mval = ['dnn', 'lin', 'tree'][model]
   params = {'model': mval, 'f': 0.25}
   if with_layers:
@@ -115,7 +157,7 @@ def conditional_values(model: int, with_layers: bool, with_l2: bool, unknown: bo
     got, raised = None, True
   reach('conditional_fail' if must_fail else 'conditional_ok')
   if must_fail:
-    return finish(raised, (model, with_layers, with_l2, unknown, layers, l2))   # an error, never silent truncation
+    return finish(raised, (model, with_layers, with_l2, unknown, layers, l2, wire))   # an error, never silent truncation
   ok = not raised and got['model'] == mval and got['f'] == 0.25
   want_keys = ['f', 'model'] + (['layers'] if with_layers else []) + (['l2'] if with_l2 else [])
   ok = ok and sorted(got.keys()) == sorted(want_keys)
@@ -123,4 +165,4 @@ def conditional_values(model: int, with_layers: bool, with_l2: bool, unknown: bo
     ok = ok and got['layers'] == layers
   if with_l2:
     ok = ok and got['l2'] == l2 and isinstance(got['l2'], float)
-  return finish(ok, (model, with_layers, with_l2, unknown, layers, l2))
+  return finish(ok, (model, with_layers, with_l2, unknown, layers, l2, wire))
